@@ -29,7 +29,7 @@ var searchRoots = []string{
 	"7k/8/5K2/8/8/8/8/R7 w - - 0 1",
 	"7k/8/5K2/8/8/8/8/R7 b - - 0 1",
 	"8/8/8/3k4/8/8/1Q6/K7 w - - 0 1",
-	"k7/8/1K6/8/8/8/8/7Q w - - 0 1",
+	"k7/8/1K6/8/8/8/8/6Q1 w - - 0 1",
 	"k7/2K5/8/8/8/8/8/7Q b - - 0 1",
 	"6k1/5ppp/8/8/8/8/8/R3K3 w Q - 0 1",
 	"6rk/6pp/8/6N1/8/8/8/4K3 w - - 0 1",
